@@ -231,3 +231,51 @@ fn c01_add_stmt_numbering() {
     kani::cover!(n == 3);
     core::mem::forget(air);
 }
+
+// ---- forward references, second half: a statement carrying Unfilled("ab") goes through the real
+// backpatch (symbol table has "ab" -> lline) and emit: field = lline - line - 1, Err iff out of range.
+macro_rules! backpatch_emit {
+    ($name:ident, $bits:expr, |$r:ident, $l:ident| $stmt:expr, $base:expr) => {
+        #[kani::proof]
+        #[kani::unwind(7)]
+        #[kani::stub(alloc::fmt::format, stubs::fmt_format)]
+        #[kani::stub(crate::symbol::with_symbol_table, stubs::with_symbol_table)]
+        fn $name() {
+            let lline: u16 = kani::any();
+            let line: u16 = kani::any();
+            let defined: bool = kani::any();
+            if defined {
+                crate::symbol::verif_h::table_put("ab", lline);
+            }
+            let $r = any_register();
+            let $l = Label::Unfilled(String::from("ab"));
+            let mut a = line_of(line, $stmt);
+            let bp = a.backpatch();
+            if !defined {
+                assert!(bp.is_err(), "reference to an undefined label accepted");
+                core::mem::forget(bp);
+                core::mem::forget(a);
+                return;
+            }
+            assert!(bp.is_ok(), "reference to a defined label rejected");
+            core::mem::forget(bp);
+            let w = a.emit();
+            match enc_pcrel(line, lline, $bits) {
+                Some(field) => assert!(matches!(w, Ok(x) if x == $base + field), "forward reference not encoded as target - (address + 1)"),
+                None => assert!(w.is_err(), "forward reference farther than the field allows accepted"),
+            }
+            kani::cover!(w.is_ok() && lline > line);
+            kani::cover!(w.is_err());
+            core::mem::forget(w);
+            core::mem::forget(a);
+        }
+    };
+}
+backpatch_emit!(c01_backpatch_emit_br, 9u32, |r, l| AirStmt::Branch { flag: Flag::Np, dest_label: l }, 0x0A00u16 + rn(r) * 0);
+backpatch_emit!(c01_backpatch_emit_ld, 9u32, |r, l| AirStmt::Load { dest: r, src_label: l }, 0x2000 + rn(r) * 512);
+backpatch_emit!(c01_backpatch_emit_ldi, 9u32, |r, l| AirStmt::LoadInd { dest: r, src_label: l }, 0xA000 + rn(r) * 512);
+backpatch_emit!(c01_backpatch_emit_lea, 9u32, |r, l| AirStmt::LoadEAddr { dest: r, src_label: l }, 0xE000 + rn(r) * 512);
+backpatch_emit!(c01_backpatch_emit_st, 9u32, |r, l| AirStmt::Store { src_reg: r, dest_label: l }, 0x3000 + rn(r) * 512);
+backpatch_emit!(c01_backpatch_emit_sti, 9u32, |r, l| AirStmt::StoreInd { src_reg: r, dest_label: l }, 0xB000 + rn(r) * 512);
+backpatch_emit!(c01_backpatch_emit_jsr, 11u32, |r, l| AirStmt::JumbSub { dest_label: l }, 0x4800u16 + rn(r) * 0);
+backpatch_emit!(c01_backpatch_emit_call, 10u32, |r, l| AirStmt::Call { dest_label: l }, 0xDC00u16 + rn(r) * 0);
